@@ -1,6 +1,7 @@
 //! Shared machinery: run context, reports, evidence files, known findings, replay files.
 
 pub mod capture;
+pub mod fsfault;
 pub mod hist;
 pub mod hooks;
 pub mod proc;
